@@ -79,7 +79,7 @@ def valuation_bl(ctx):
     dep = rng.choice([100.0, 1e5])
     b = Broker(ex, deposit=dep, fees=fees)
     led = Ledger(dep, fees)
-    cs = rng.sample([ETF("A"), ES(2021, 3), gen.UserFuture("F", 5.0, 0.1), gen.SpotMult("L10", 10.0)], rng.randint(1, 2))
+    cs = rng.sample([ETF("A"), ES(2021, 3), gen.UserFuture("F", 5.0, 0.1), gen.SpotMult("L10", 10.0), gen.UserSpot("U3", 3.0), gen.AssetFuture("AF", 20, 0.2)], rng.randint(1, 2))
     mid = {}
     for c in cs:
         mid[c] = rng.choice([16.0, 100.0, 3000.0])
